@@ -27,12 +27,13 @@ const (
 		"withdraw that paid ONT out of governance. Distinct: different action/outcome sequence."
 	assume1 = "set-up: the ONT owner moves Σ genesis InitPos ONT to the governance address (initConfig only records the genesis stakes), as on every production network"
 	assume2 = "set-up: on network id 3 the whole ONG supply is minted to bookkeeper 0; it moves an ONG pool to the ONT contract address (pays ONG unbound to governance), to a bank account (governance income) and to the cast (candidate fee)"
+	assume4 = "witness sets contain only key-holding accounts, never a contract address (governance, ONT, zero address): no transaction can carry those"
 	assume3 = "one simulated transaction = one NativeService call on a CacheDB over the genesis state, committed on success and reset on error (fix.Native), with the signer set given as witnesses"
 )
 
 func collector(prop string) *harn.Collector {
 	ev := harn.For(prop)
-	ev.Assume(assume1).Assume(assume2).Assume(assume3)
+	ev.Assume(assume1).Assume(assume2).Assume(assume3).Assume(assume4)
 	fl := func(num, den string, min float64) { ev.Floor(num, den, min) }
 	// every action kind must both succeed and fail often enough to mean something
 	fl("registerCandidate:ok", "registerCandidate", 0.20)
@@ -55,8 +56,8 @@ func collector(prop string) *harn.Collector {
 	} else {
 		ev.Rule(ruleC11)
 		fl("withdraw:ok:paid>0", "withdraw", 0.20)
-		fl("withdraw:ok:fromQuitPeer", "withdraw:ok:paid>0", 0.03)
-		fl("withdraw:ok:fromBlackedPeer", "withdraw:ok:paid>0", 0.03)
+		fl("withdraw:ok:fromQuitPeer", "withdraw:ok:paid>0", 0.05)
+		fl("withdraw:ok:fromBlackedPeer", "withdraw:ok:paid>0", 0.05)
 		fl("addInitPos:ok", "addInitPos", 0.30)
 		fl("reduceInitPos:ok", "reduceInitPos", 0.15)
 		fl("hist:nontrivial", "", 0.15)
@@ -85,7 +86,8 @@ func runHistories(t *testing.T, prop string, prof *profile, steps, quickN, thoro
 
 		// warm-up: epochs by the admin (normally past view 6 so that executeSplit2 is the active path) and
 		// authorization limits raised by some genesis peers; judged like every other action
-		warm := int(h.g.of("warmEpochs", 7, 7, 7, 8, 9, 6, 3, 0))
+		warm := int(h.g.of("warmEpochs", 7, 7, 7, 7, 8, 8, 9, 6, 3, 0))
+		h.warm = true
 		for i := 0; i < warm; i++ {
 			h.tick(1, uint32(h.g.of("warmDt", 1, 10, 600)))
 			h.exec(h.mk("commitDpos", "commitDpos", nil, []common.Address{w.admin}, true, "warm-up"))
@@ -100,9 +102,10 @@ func runHistories(t *testing.T, prop string, prof *profile, steps, quickN, thoro
 				}
 			}
 		}
+		h.warm = false
 		h.log = append(h.log, "|")
 
-		n := int(h.g.rng("steps", uint64(steps/4), uint64(steps*7/4)))
+		n := steps/2 + h.g.n("steps", steps+1)
 		for i := 0; i < n; i++ {
 			h.drawTick()
 			h.exec(h.next())
@@ -132,7 +135,7 @@ func (h *hist) validActionFor(kind, pub string) *action {
 	return h.mkMaxAuth(p, uint32(limit))
 }
 
-func TestC10_SplitMixedHistories(t *testing.T)  { runHistories(t, "C10", profMixed, 40, 60, 2500) }
-func TestC10_SplitFocusedHistories(t *testing.T) { runHistories(t, "C10", profSplit, 40, 60, 2500) }
-func TestC11_StakeMixedHistories(t *testing.T)   { runHistories(t, "C11", profMixed, 40, 60, 2500) }
-func TestC11_StakeCustodyHistories(t *testing.T) { runHistories(t, "C11", profCustody, 40, 60, 2500) }
+func TestC10_SplitMixedHistories(t *testing.T)   { runHistories(t, "C10", profMixed, 40, 60, 1800) }
+func TestC10_SplitFocusedHistories(t *testing.T) { runHistories(t, "C10", profSplit, 40, 60, 1800) }
+func TestC11_StakeMixedHistories(t *testing.T)   { runHistories(t, "C11", profMixed, 40, 60, 1800) }
+func TestC11_StakeCustodyHistories(t *testing.T) { runHistories(t, "C11", profCustody, 40, 60, 1800) }
